@@ -6,6 +6,7 @@ HERE = os.path.dirname(os.path.dirname(os.path.abspath(__file__)))
 
 # id -> (category, technique, level text, level note, design ref)
 ROUND5 = {
+ "C15": "proxy_client_rejoins: a front-side client joins again under its announced identity while a large reply to its slow first connection is blocked; afterwards a message on the new connection comes back on the new connection.",
  "C06": "l1_crowd: the component simulation with 130..229 peers that go quiet and then speak all at once.",
  "C11": "recovery: a subscriber that stalled while a thousand-odd small messages were published and has caught up receives what is published afterwards.",
  "C13": "A first connection left open by a publisher that joined again under its identity is judged like any other peer while the socket still holds it.",
